@@ -13,42 +13,45 @@ pub assume_specification<T, F: std::ops::FnOnce() -> T + std::marker::Destruct> 
      *final(o) == Some(*final(r)),
 ;
 
-const AUX_TOKEN: u8 = 15;
+const AUX_TOKEN : u8 = 15 ;
+
 // ================= coupons (hll/mod.rs) =================
-const KEY_BITS_26: u32 = 26;
-exec const KEY_MASK_26: u32 ensures KEY_MASK_26 == 0x3ffffff {
-proof { assert((1u32 << 26u32) - 1 == 0x3ffffff) by (bit_vector); }
-(1 << KEY_BITS_26) - 1 }
+const KEY_BITS_26 : u32 = 26 ;
+
+exec const KEY_MASK_26 : u32 ensures KEY_MASK_26 == 0x3ffffff {
+proof {
+assert ( ( 1u32 << 26u32 ) - 1 == 0x3ffffff ) by ( bit_vector ) ;
+}
+( 1 << KEY_BITS_26 ) - 1 }
+
 
 spec fn cslot(c: u32) -> u32 { c & 0x3ffffff }
 spec fn cval(c: u32) -> u8 { (c >> 26) as u8 }
 // the slot a coupon addresses in a sketch with 2^lg registers
 spec fn slot_of(c: u32, lg: u8) -> int { (cslot(c) as int) % (pow2(lg as nat) as int) }
 
-fn get_slot(coupon: u32) -> (r: u32)
-  ensures r == cslot(coupon)
-{
-    coupon & KEY_MASK_26
-}
+fn get_slot ( coupon : u32 ) -> ( r : u32 ) ensures r == cslot ( coupon ) {
+coupon & KEY_MASK_26 }
 
-fn get_value(coupon: u32) -> (r: u8)
-  ensures r == cval(coupon), r <= 63
-{
-    proof { assert((coupon >> 26) <= 63) by (bit_vector); }
-    (coupon >> KEY_BITS_26) as u8
+
+fn get_value ( coupon : u32 ) -> ( r : u8 ) ensures r == cval ( coupon ) , r <= 63 {
+proof {
+assert ( ( coupon >> 26 ) <= 63 ) by ( bit_vector ) ;
 }
+( coupon >> KEY_BITS_26 ) as u8 }
+
 
 // ================= AuxMap by contract (every function below is VERIFIED against these contracts in unit hll_auxmap,
 // where inv() is the hash-table invariant wf2(), lgk() is lg_config_k, awf() is proved by lemma_awf) =================
 #[verifier::external_body]
-struct AuxMap { _p: u8 }
+pub struct AuxMap { _p: u8 }
 #[verifier::external_body]
-struct AuxMapIter { _p: u8 }
+pub struct AuxMapIter { _p: u8 }
 impl AuxMap {
-    uninterp spec fn view(&self) -> IMap<u32, u8>;
-    uninterp spec fn lgk(&self) -> u8;
-    uninterp spec fn inv(&self) -> bool;
-    spec fn awf(&self) -> bool {
+    pub uninterp spec fn view(&self) -> IMap<u32, u8>;
+    pub uninterp spec fn lgk(&self) -> u8;
+    pub uninterp spec fn inv(&self) -> bool;
+    pub open spec fn awf(&self) -> bool {
         &&& self.inv()
         &&& forall|s: u32| self.view().dom().contains(s) ==> s < pow2(self.lgk() as nat) && 1 <= #[trigger] self.view()[s] <= 63
     }
@@ -82,9 +85,9 @@ impl IntoIterator for AuxMap {
     { unimplemented!() }
 }
 impl AuxMapIter {
-    uninterp spec fn todo(&self) -> IMap<u32, u8>;
-    uninterp spec fn left(&self) -> nat;
-    uninterp spec fn iwf(&self) -> bool;
+    pub uninterp spec fn todo(&self) -> IMap<u32, u8>;
+    pub uninterp spec fn left(&self) -> nat;
+    pub uninterp spec fn iwf(&self) -> bool;
 }
 impl Iterator for AuxMapIter {
     type Item = (u32, u8);
@@ -127,13 +130,8 @@ fn vx_get_or_new_aux(o: &mut Option<AuxMap>, lg_config_k: u8) -> (r: &mut AuxMap
 
 // ================= hll/array4.rs (real code + overlay) =================
 struct Array4 {
-    lg_config_k: u8,
-    bytes: Box<[u8]>,
-    cur_min: u8,
-    num_at_cur_min: u32,
-    aux_map: Option<AuxMap>,
-    estimator: HipEstimator,
-}
+lg_config_k : u8 , bytes : Box < [ u8 ] > , cur_min : u8 , num_at_cur_min : u32 , aux_map : Option < AuxMap > , estimator : HipEstimator , }
+
 
 spec fn nib(bytes: Seq<u8>, i: int) -> u8 { if i % 2 == 0 { bytes[i / 2] & 15 } else { bytes[i / 2] >> 4 } }
 
@@ -172,48 +170,54 @@ impl Array4 {
 
     /// Get raw 4-bit value from slot (not adjusted for cur_min)
     #[inline]
-    fn get_raw(&self, slot: u32) -> (r: u8)
-      requires 4 <= self.lg_config_k <= 21, self.bytes@.len() * 2 == self.k(), slot < self.k()
-      ensures r == nib(self.bytes@, slot as int), r <= 15
-    {
-        proof { lemma_k(self.lg_config_k); assert(slot >> 1 == slot / 2) by (bit_vector); assert((slot & 1 == 0) == (slot % 2 == 0)) by (bit_vector); }
-        debug_assert!(slot >> 1 < self.bytes.len() as u32);
+    fn get_raw ( & self , slot : u32 ) -> ( r : u8 ) requires 4 <= self . lg_config_k <= 21 , self . bytes @ . len ( ) * 2 == self . k ( ) , slot < self . k ( ) ensures r == nib ( self . bytes @ , slot as int ) , r <= 15 {
+proof {
+lemma_k ( self . lg_config_k ) ;
+assert ( slot >> 1 == slot / 2 ) by ( bit_vector ) ;
+assert ( ( slot & 1 == 0 ) == ( slot % 2 == 0 ) ) by ( bit_vector ) ;
+}
+debug_assert! ( slot >> 1 < self . bytes . len ( ) as u32 ) ;
+let byte = self . bytes [ ( slot >> 1 ) as usize ] ;
+proof {
+assert ( byte & 15 <= 15 ) by ( bit_vector ) ;
+assert ( byte >> 4 <= 15 ) by ( bit_vector ) ;
+}
+if slot & 1 == 0 {
+byte & 15 }
+else {
+byte >> 4 }
+}
 
-        let byte = self.bytes[(slot >> 1) as usize];
-        proof { assert(byte & 15 <= 15) by (bit_vector); assert(byte >> 4 <= 15) by (bit_vector); }
-        if slot & 1 == 0 {
-            byte & 15 // low nibble for even slots
-        } else {
-            byte >> 4 // high nibble for odd slots
-        }
-    }
 
     /// Set raw 4-bit value in slot
     #[inline]
-    fn put_raw(&mut self, slot: u32, value: u8)
-      requires 4 <= old(self).lg_config_k <= 21, old(self).bytes@.len() * 2 == old(self).k(), slot < old(self).k(), value <= 15
-      ensures final(self).bytes@.len() == old(self).bytes@.len(),
-        final(self).lg_config_k == old(self).lg_config_k, final(self).cur_min == old(self).cur_min, final(self).num_at_cur_min == old(self).num_at_cur_min,
-        final(self).aux_map == old(self).aux_map, final(self).estimator == old(self).estimator,
-        forall|j: int| 0 <= j < old(self).k() ==> #[trigger] nib(final(self).bytes@, j) == (if j == slot { value } else { nib(old(self).bytes@, j) }),
-    {
-        proof { lemma_k(self.lg_config_k); assert(slot >> 1 == slot / 2) by (bit_vector); assert((slot & 1 == 0) == (slot % 2 == 0)) by (bit_vector); }
-        debug_assert!(value <= AUX_TOKEN);
-        debug_assert!(slot >> 1 < self.bytes.len() as u32);
+    fn put_raw ( & mut self , slot : u32 , value : u8 ) requires 4 <= old ( self ) . lg_config_k <= 21 , old ( self ) . bytes @ . len ( ) * 2 == old ( self ) . k ( ) , slot < old ( self ) . k ( ) , value <= 15 ensures final ( self ) . bytes @ . len ( ) == old ( self ) . bytes @ . len ( ) , final ( self ) . lg_config_k == old ( self ) . lg_config_k , final ( self ) . cur_min == old ( self ) . cur_min , final ( self ) . num_at_cur_min == old ( self ) . num_at_cur_min , final ( self ) . aux_map == old ( self ) . aux_map , final ( self ) . estimator == old ( self ) . estimator , forall | j : int | 0 <= j < old ( self ) . k ( ) ==> # [ trigger ] nib ( final ( self ) . bytes @ , j ) == ( if j == slot {
+value }
+else {
+nib ( old ( self ) . bytes @ , j ) }
+) , {
+proof {
+lemma_k ( self . lg_config_k ) ;
+assert ( slot >> 1 == slot / 2 ) by ( bit_vector ) ;
+assert ( ( slot & 1 == 0 ) == ( slot % 2 == 0 ) ) by ( bit_vector ) ;
+}
+debug_assert! ( value <= AUX_TOKEN ) ;
+debug_assert! ( slot >> 1 < self . bytes . len ( ) as u32 ) ;
+let byte_idx = ( slot >> 1 ) as usize ;
+let old_byte = self . bytes [ byte_idx ] ;
+proof {
+let v = value ;
+let ob = old_byte ;
+assert ( v <= 15 ==> ( ( ( ob & 0xF0 ) | ( v & 0x0F ) ) & 15 ) == v && ( ( ( ob & 0xF0 ) | ( v & 0x0F ) ) >> 4 ) == ( ob >> 4 ) ) by ( bit_vector ) ;
+assert ( v <= 15 ==> ( ( ( ob & 0x0F ) | ( v << 4 ) ) >> 4 ) == v && ( ( ( ob & 0x0F ) | ( v << 4 ) ) & 15 ) == ( ob & 15 ) ) by ( bit_vector ) ;
+}
+self . bytes [ byte_idx ] = if slot & 1 == 0 {
+( old_byte & 0xF0 ) | ( value & 0x0F ) }
+else {
+( old_byte & 0x0F ) | ( value << 4 ) }
+;
+}
 
-        let byte_idx = (slot >> 1) as usize;
-        let old_byte = self.bytes[byte_idx];
-        proof {
-            let v = value; let ob = old_byte;
-            assert(v <= 15 ==> (((ob & 0xF0) | (v & 0x0F)) & 15) == v && (((ob & 0xF0) | (v & 0x0F)) >> 4) == (ob >> 4)) by (bit_vector);
-            assert(v <= 15 ==> (((ob & 0x0F) | (v << 4)) >> 4) == v && (((ob & 0x0F) | (v << 4)) & 15) == (ob & 15)) by (bit_vector);
-        }
-        self.bytes[byte_idx] = if slot & 1 == 0 {
-            (old_byte & 0xF0) | (value & 0x0F) // set low nibble
-        } else {
-            (old_byte & 0x0F) | (value << 4) // set high nibble
-        };
-    }
 
     spec fn cnt_at(&self, v: int, n: int) -> int { pcnt(self.cur_min, self.bytes@, self.auxv(), v, n) }
     spec fn wf2(&self) -> bool {
@@ -222,270 +226,298 @@ impl Array4 {
         &&& self.num_at_cur_min > 0
     }
 
-    fn shift_to_bigger_cur_min(&mut self)
-      requires old(self).wf(), old(self).num_at_cur_min == 0, old(self).cnt_at(old(self).cur_min as int, old(self).k()) == 0
-      ensures final(self).wf(), final(self).cur_min == old(self).cur_min + 1, final(self).lg_config_k == old(self).lg_config_k,
-        final(self).estimator == old(self).estimator,
-        /*@C02.shift_regs*/ forall|i: int| 0 <= i < old(self).k() ==> final(self).reg(i) == old(self).reg(i),
-        /*@C02.shift_count*/ final(self).num_at_cur_min == final(self).cnt_at(final(self).cur_min as int, final(self).k()),
-    {
-        let ghost lg = self.lg_config_k; let ghost c0 = self.cur_min; let ghost b0 = self.bytes@; let ghost a0 = self.auxv();
-        let ghost kk = self.k();
-        proof { lemma_k(lg); lemma_no_min(lg, c0, b0, a0); }
-        let new_cur_min = self.cur_min + 1;
-        let k = 1 << self.lg_config_k;
-        let mut num_at_new = 0;
+    fn shift_to_bigger_cur_min ( & mut self ) requires old ( self ) . wf ( ) , old ( self ) . num_at_cur_min == 0 , old ( self ) . cnt_at ( old ( self ) . cur_min as int , old ( self ) . k ( ) ) == 0 ensures final ( self ) . wf ( ) , final ( self ) . cur_min == old ( self ) . cur_min + 1 , final ( self ) . lg_config_k == old ( self ) . lg_config_k , final ( self ) . estimator == old ( self ) . estimator ,
+/*@C02.shift_regs*/ forall | i : int | 0 <= i < old ( self ) . k ( ) ==> final ( self ) . reg ( i ) == old ( self ) . reg ( i ) ,
+/*@C02.shift_count*/ final ( self ) . num_at_cur_min == final ( self ) . cnt_at ( final ( self ) . cur_min as int , final ( self ) . k ( ) ) , {
+let ghost lg = self . lg_config_k ;
+let ghost c0 = self . cur_min ;
+let ghost b0 = self . bytes @ ;
+let ghost a0 = self . auxv ( ) ;
+let ghost kk = self . k ( ) ;
+proof {
+lemma_k ( lg ) ;
+lemma_no_min ( lg , c0 , b0 , a0 ) ;
+}
+let new_cur_min = self . cur_min + 1 ;
+let k = 1 << self . lg_config_k ;
+let mut num_at_new = 0 ;
+for slot in 0 .. k invariant k == kk , kk == pow2 ( lg as nat ) , self . lg_config_k == lg , self . cur_min == c0 , self . aux_map == old ( self ) . aux_map , self . bytes @ . len ( ) == b0 . len ( ) , self . estimator == old ( self ) . estimator , pwf ( lg , c0 , b0 , a0 ) , new_cur_min == c0 + 1 , forall | j : int | 0 <= j < kk ==> nib ( b0 , j ) >= 1 , forall | j : int | 0 <= j < kk ==> # [ trigger ] nib ( self . bytes @ , j ) == ( if j < slot && nib ( b0 , j ) < 15 {
+( nib ( b0 , j ) - 1 ) as u8 }
+else {
+nib ( b0 , j ) }
+) , num_at_new == cnt_one ( b0 , slot as int ) , num_at_new <= slot , {
+let raw = self . get_raw ( slot ) ;
+debug_assert! ( raw != 0 ) ;
+if raw < AUX_TOKEN {
+let decremented = raw - 1 ;
+self . put_raw ( slot , decremented ) ;
+if decremented == 0 {
+num_at_new += 1 ;
+}
+}
+}
+let ghost b1 = self . bytes @ ;
+proof {
+assert ( forall | j : int | 0 <= j < kk ==> # [ trigger ] nib ( b1 , j ) == ( if nib ( b0 , j ) < 15 {
+( nib ( b0 , j ) - 1 ) as u8 }
+else {
+nib ( b0 , j ) }
+) ) ;
+}
+if let Some ( old_aux ) = self . aux_map . take ( ) {
+let mut new_aux = None ;
+proof {
+assert ( old_aux . view ( ) == a0 ) ;
+}
+let mut vx_it2 = old_aux . into_iter ( ) ;
+let ghost mut todo = vx_it2 . todo ( ) ;
+proof {
+assert ( todo == a0 ) ;
+assert ( vx_it2 . iwf ( ) ) ;
+assert ( self . bytes @ == b1 ) ;
+assert forall | j : int | 0 <= j < kk implies # [ trigger ] nib ( self . bytes @ , j ) == shifted_nib ( c0 , b0 , a0 , todo , j ) by {
+lemma_nib_le ( b0 , j ) ;
+assert ( nib ( b0 , j ) == 15 <==> a0 . dom ( ) . contains ( j as u32 ) ) ;
+assert ( nib ( b1 , j ) == ( if nib ( b0 , j ) < 15 {
+( nib ( b0 , j ) - 1 ) as u8 }
+else {
+nib ( b0 , j ) }
+) ) ;
+}
+assert ( opt_view ( new_aux ) . dom ( ) =~= ISet :: empty ( ) ) ;
+}
+loop invariant_except_break vx_it2 . iwf ( ) , vx_it2 . todo ( ) == todo , invariant kk == pow2 ( lg as nat ) , kk <= 0x20_0000 , self . lg_config_k == lg , self . cur_min == c0 , self . aux_map is None , self . bytes @ . len ( ) == b0 . len ( ) , pwf ( lg , c0 , b0 , a0 ) , new_cur_min == c0 + 1 , c0 <= 62 , 4 <= lg <= 21 , forall | s : u32 | # [ trigger ] todo . dom ( ) . contains ( s ) ==> a0 . dom ( ) . contains ( s ) && todo [ s ] == a0 [ s ] , opt_awf ( new_aux , lg ) , self . estimator == old ( self ) . estimator , forall | j : int | 0 <= j < kk ==> # [ trigger ] nib ( self . bytes @ , j ) == shifted_nib ( c0 , b0 , a0 , todo , j ) , forall | s : u32 | # [ trigger ] opt_view ( new_aux ) . dom ( ) . contains ( s ) <==> ( a0 . dom ( ) . contains ( s ) && ! todo . dom ( ) . contains ( s ) && a0 [ s ] - ( c0 + 1 ) >= 15 ) , forall | s : u32 | # [ trigger ] opt_view ( new_aux ) . dom ( ) . contains ( s ) ==> opt_view ( new_aux ) [ s ] == a0 [ s ] , ensures todo . dom ( ) =~= ISet :: < u32 > :: empty ( ) , decreases vx_it2 . left ( ) {
+let ghost todo0 = todo ;
+let ghost nb0 = self . bytes @ ;
+let ghost na0 = opt_view ( new_aux ) ;
+match vx_it2 . next ( ) {
+Some ( ( slot , old_actual_val ) ) => {
+proof {
+todo = vx_it2 . todo ( ) ;
+assert ( todo0 . dom ( ) . contains ( slot ) ) ;
+assert ( a0 . dom ( ) . contains ( slot ) && a0 [ slot ] == old_actual_val ) ;
+assert ( nib ( nb0 , slot as int ) == shifted_nib ( c0 , b0 , a0 , todo0 , slot as int ) ) ;
+assert ( nib ( b0 , slot as int ) == 15 <==> a0 . dom ( ) . contains ( ( slot as int ) as u32 ) ) ;
+}
+debug_assert! ( self . get_raw ( slot ) == AUX_TOKEN ) ;
+let new_shifted = old_actual_val - new_cur_min ;
+if new_shifted < AUX_TOKEN {
+self . put_raw ( slot , new_shifted ) ;
+}
+else {
+let aux = vx_get_or_new_aux ( & mut new_aux , self . lg_config_k ) ;
+aux . insert ( slot , old_actual_val ) ;
+}
+proof {
+if new_shifted >= 15 {
+assert ( self . bytes @ == nb0 ) ;
+assert ( opt_view ( new_aux ) == na0 . insert ( slot , old_actual_val ) ) ;
+}
+else {
+assert ( opt_view ( new_aux ) == na0 ) ;
+}
+lemma_shift_step ( lg , c0 , b0 , a0 , todo0 , todo , nb0 , self . bytes @ , na0 , opt_view ( new_aux ) , slot ) ;
+}
+}
+None => {
+break ;
+}
+}
+}
+self . aux_map = new_aux ;
+proof {
+assert forall | j : int | 0 <= j < kk implies # [ trigger ] nib ( self . bytes @ , j ) == final_nib ( c0 , b0 , a0 , j ) by {
+assert ( nib ( self . bytes @ , j ) == shifted_nib ( c0 , b0 , a0 , todo , j ) ) ;
+assert ( ! todo . dom ( ) . contains ( j as u32 ) ) ;
+}
+assert ( self . auxv ( ) == opt_view ( self . aux_map ) ) ;
+}
+}
+else {
+proof {
+assert ( a0 . dom ( ) =~= ISet :: < u32 > :: empty ( ) ) ;
+assert ( self . bytes @ == b1 ) ;
+assert forall | j : int | 0 <= j < kk implies # [ trigger ] nib ( self . bytes @ , j ) == final_nib ( c0 , b0 , a0 , j ) by {
+lemma_nib_le ( b0 , j ) ;
+assert ( nib ( b0 , j ) == 15 <==> a0 . dom ( ) . contains ( j as u32 ) ) ;
+assert ( nib ( b1 , j ) == ( if nib ( b0 , j ) < 15 {
+( nib ( b0 , j ) - 1 ) as u8 }
+else {
+nib ( b0 , j ) }
+) ) ;
+}
+}
+}
+self . cur_min = new_cur_min ;
+self . num_at_cur_min = num_at_new ;
+proof {
+let b2 = self . bytes @ ;
+let a2 = self . auxv ( ) ;
+lemma_shift_done ( lg , c0 , b0 , a0 , b2 , a2 ) ;
+lemma_cnt_one ( lg , c0 , b0 , a0 , b2 , a2 , kk ) ;
+}
+}
 
-        // Decrement all stored values in the main array
-        for slot in 0..k
-          invariant
-            k == kk, kk == pow2(lg as nat), self.lg_config_k == lg, self.cur_min == c0, self.aux_map == old(self).aux_map, self.bytes@.len() == b0.len(),
-            self.estimator == old(self).estimator,
-            pwf(lg, c0, b0, a0), new_cur_min == c0 + 1,
-            forall|j: int| 0 <= j < kk ==> nib(b0, j) >= 1,
-            forall|j: int| 0 <= j < kk ==> #[trigger] nib(self.bytes@, j) == (if j < slot && nib(b0, j) < 15 { (nib(b0, j) - 1) as u8 } else { nib(b0, j) }),
-            num_at_new == cnt_one(b0, slot as int), num_at_new <= slot,
-        {
-            let raw = self.get_raw(slot);
-            debug_assert!(raw != 0);
-            if raw < AUX_TOKEN {
-                let decremented = raw - 1;
-                self.put_raw(slot, decremented);
-                if decremented == 0 {
-                    num_at_new += 1;
-                }
-            }
-        }
-        let ghost b1 = self.bytes@;
-        proof { assert(forall|j: int| 0 <= j < kk ==> #[trigger] nib(b1, j) == (if nib(b0, j) < 15 { (nib(b0, j) - 1) as u8 } else { nib(b0, j) })); }
 
-        // Rebuild aux map: some exceptions may no longer be exceptions
-        if let Some(old_aux) = self.aux_map.take() {
-            let mut new_aux = None;
-            proof { assert(old_aux.view() == a0); }
+    fn update ( & mut self , coupon : u32 ) requires old ( self ) . wf2 ( ) ensures
+/*@C02.wf*/ final ( self ) . wf2 ( ) , final ( self ) . lg_config_k == old ( self ) . lg_config_k ,
+/*@C02.regs*/ forall | i : int | 0 <= i < old ( self ) . k ( ) ==> # [ trigger ] final ( self ) . reg ( i ) == ( if i == slot_of ( coupon , old ( self ) . lg_config_k ) && cval ( coupon ) as int > old ( self ) . reg ( i ) {
+cval ( coupon ) as int }
+else {
+old ( self ) . reg ( i ) }
+) ,
+/*@C02.log*/ final ( self ) . estimator . log ( ) == ( if cval ( coupon ) as int > old ( self ) . reg ( slot_of ( coupon , old ( self ) . lg_config_k ) ) {
+old ( self ) . estimator . log ( ) . push ( ( old ( self ) . reg ( slot_of ( coupon , old ( self ) . lg_config_k ) ) as u8 , cval ( coupon ) ) ) }
+else {
+old ( self ) . estimator . log ( ) }
+) , {
+proof {
+lemma_k ( self . lg_config_k ) ;
+lemma_mask ( cslot ( coupon ) , self . lg_config_k ) ;
+}
+let mask = ( 1 << self . lg_config_k ) - 1 ;
+let slot = get_slot ( coupon ) & mask ;
+let new_value = get_value ( coupon ) ;
+if new_value <= self . cur_min {
+proof {
+assert ( self . reg ( slot as int ) >= self . cur_min ) by {
+self . lemma_reg_ge ( slot as int ) ;
+}
+}
+return ;
+}
+let raw_stored = self . get_raw ( slot ) ;
+let lower_bound = raw_stored + self . cur_min ;
+proof {
+self . lemma_reg_ge ( slot as int ) ;
+}
+if new_value <= lower_bound {
+return ;
+}
+let old_value = if raw_stored < AUX_TOKEN {
+lower_bound }
+else {
+self . aux_map . as_ref ( ) . expect ( "" ) . get ( slot ) . expect ( "" ) }
+;
+proof {
+assert ( old_value as int == self . reg ( slot as int ) ) ;
+}
+if new_value <= old_value {
+return ;
+}
+proof {
+assert ( self . wf ( ) ) ;
+}
+let ghost pre0 = * self ;
+self . estimator . update ( self . lg_config_k , old_value , new_value ) ;
+let shifted_new = new_value - self . cur_min ;
+let ghost pre = * self ;
+proof {
+assert ( pre . wf ( ) ) ;
+}
+match ( raw_stored , shifted_new ) {
+( AUX_TOKEN , shifted ) if shifted >= AUX_TOKEN => {
+self . aux_map . as_mut ( ) . expect ( "" ) . replace ( slot , new_value ) ;
+proof {
+assert ( self . auxv ( ) == pre . auxv ( ) . insert ( slot , new_value ) ) ;
+assert ( self . bytes @ == pre . bytes @ ) ;
+}
+}
+( AUX_TOKEN , _ ) => {
+unreachable! ( ) ;
+}
+( _ , shifted ) if shifted >= AUX_TOKEN => {
+self . put_raw ( slot , AUX_TOKEN ) ;
+let aux = vx_get_or_new_aux ( & mut self . aux_map , self . lg_config_k ) ;
+aux . insert ( slot , new_value ) ;
+proof {
+assert ( self . auxv ( ) == pre . auxv ( ) . insert ( slot , new_value ) ) ;
+assert ( forall | j : int | 0 <= j < pre . k ( ) ==> # [ trigger ] nib ( self . bytes @ , j ) == ( if j == slot {
+15u8 }
+else {
+nib ( pre . bytes @ , j ) }
+) ) ;
+}
+}
+_ => {
+self . put_raw ( slot , shifted_new ) ;
+proof {
+assert ( self . auxv ( ) == pre . auxv ( ) ) ;
+assert ( forall | j : int | 0 <= j < pre . k ( ) ==> # [ trigger ] nib ( self . bytes @ , j ) == ( if j == slot {
+shifted_new }
+else {
+nib ( pre . bytes @ , j ) }
+) ) ;
+}
+}
+}
+proof {
+assert ( self . cur_min == pre . cur_min && self . lg_config_k == pre . lg_config_k && self . bytes @ . len ( ) == pre . bytes @ . len ( ) ) ;
+assert forall | i : int | 0 <= i < pre . k ( ) implies # [ trigger ] self . reg ( i ) == ( if i == slot {
+new_value as int }
+else {
+pre . reg ( i ) }
+) by {
+pre . lemma_reg_ge ( i ) ;
+if i != slot {
+assert ( nib ( self . bytes @ , i ) == nib ( pre . bytes @ , i ) ) ;
+if nib ( pre . bytes @ , i ) == 15 {
+assert ( pre . auxv ( ) . dom ( ) . contains ( i as u32 ) ) ;
+assert ( self . auxv ( ) [ i as u32 ] == pre . auxv ( ) [ i as u32 ] ) ;
+}
+}
+}
+assert forall | i : int | 0 <= i < self . k ( ) implies ( nib ( self . bytes @ , i ) == 15 <==> # [ trigger ] self . auxv ( ) . dom ( ) . contains ( i as u32 ) ) by {
+pre . lemma_reg_ge ( i ) ;
+if i != slot {
+assert ( nib ( self . bytes @ , i ) == nib ( pre . bytes @ , i ) ) ;
+assert ( pre . auxv ( ) . dom ( ) . contains ( i as u32 ) == self . auxv ( ) . dom ( ) . contains ( i as u32 ) ) ;
+}
+}
+assert forall | s : u32 | # [ trigger ] self . auxv ( ) . dom ( ) . contains ( s ) implies s < self . k ( ) && self . cur_min + 15 <= self . auxv ( ) [ s ] <= 63 by {
+if s != slot {
+assert ( pre . auxv ( ) . dom ( ) . contains ( s ) ) ;
+assert ( self . auxv ( ) [ s ] == pre . auxv ( ) [ s ] ) ;
+}
+else {
+if shifted_new < 15 {
+assert ( raw_stored < 15 ) ;
+assert ( nib ( pre . bytes @ , slot as int ) == 15 <==> pre . auxv ( ) . dom ( ) . contains ( ( slot as int ) as u32 ) ) ;
+assert ( false ) ;
+}
+else {
+assert ( self . auxv ( ) [ slot ] == new_value ) ;
+}
+}
+}
+assert ( self . aux_map matches Some ( m ) ==> m . awf ( ) && m . lgk ( ) == self . lg_config_k ) ;
+assert forall | i : int | 0 <= i < self . k ( ) implies # [ trigger ] preg ( self . cur_min , self . bytes @ , self . auxv ( ) , i ) <= 63 by {
+assert ( self . reg ( i ) == ( if i == slot {
+new_value as int }
+else {
+pre . reg ( i ) }
+) ) ;
+assert ( pre . reg ( i ) <= 63 ) ;
+}
+assert ( self . bytes @ . len ( ) * 2 == self . k ( ) ) ;
+assert ( self . cur_min <= 63 && 4 <= self . lg_config_k <= 21 ) ;
+assert ( forall | i : int | 0 <= i < self . k ( ) ==> ( nib ( self . bytes @ , i ) == 15 <==> # [ trigger ] self . auxv ( ) . dom ( ) . contains ( i as u32 ) ) ) ;
+assert ( pwf ( self . lg_config_k , self . cur_min , self . bytes @ , self . auxv ( ) ) ) ;
+assert ( self . wf ( ) ) ;
+self . lemma_cnt_update ( pre , slot as int , self . k ( ) ) ;
+}
+if old_value == self . cur_min {
+self . num_at_cur_min -= 1 ;
+while self . num_at_cur_min == 0 invariant self . wf ( ) , self . lg_config_k == old ( self ) . lg_config_k , self . estimator == pre . estimator , self . num_at_cur_min == self . cnt_at ( self . cur_min as int , self . k ( ) ) , forall | i : int | 0 <= i < old ( self ) . k ( ) ==> # [ trigger ] self . reg ( i ) == ( if i == slot {
+new_value as int }
+else {
+pre . reg ( i ) }
+) , decreases 63 - self . cur_min {
+self . shift_to_bigger_cur_min ( ) ;
+}
+}
+}
 
-            let mut vx_it = old_aux.into_iter();
-            proof {
-                assert(vx_it.todo() == a0);
-                assert(self.bytes@ == b1);
-                assert forall|j: int| 0 <= j < kk implies #[trigger] nib(self.bytes@, j) == shifted_nib(c0, b0, a0, vx_it.todo(), j) by {
-                    lemma_nib_le(b0, j);
-                    assert(nib(b0, j) == 15 <==> a0.dom().contains(j as u32));
-                    assert(nib(b1, j) == (if nib(b0, j) < 15 { (nib(b0, j) - 1) as u8 } else { nib(b0, j) }));
-                }
-                assert(opt_view(new_aux).dom() =~= ISet::empty());
-            }
-            loop
-              invariant
-                kk == pow2(lg as nat), kk <= 0x20_0000, self.lg_config_k == lg, self.cur_min == c0, self.aux_map is None, self.bytes@.len() == b0.len(),
-                pwf(lg, c0, b0, a0), new_cur_min == c0 + 1, c0 <= 62, 4 <= lg <= 21,
-                forall|s: u32| #[trigger] vx_it.todo().dom().contains(s) ==> a0.dom().contains(s) && vx_it.todo()[s] == a0[s],
-                opt_awf(new_aux, lg), vx_it.iwf(), self.estimator == old(self).estimator,
-                forall|j: int| 0 <= j < kk ==> #[trigger] nib(self.bytes@, j) == shifted_nib(c0, b0, a0, vx_it.todo(), j),
-                forall|s: u32| #[trigger] opt_view(new_aux).dom().contains(s) <==> (a0.dom().contains(s) && !vx_it.todo().dom().contains(s) && a0[s] - (c0 + 1) >= 15),
-                forall|s: u32| #[trigger] opt_view(new_aux).dom().contains(s) ==> opt_view(new_aux)[s] == a0[s],
-              ensures vx_it.todo().dom() =~= ISet::<u32>::empty(),
-              decreases vx_it.left()
-            {
-                let ghost it0 = vx_it; let ghost nb0 = self.bytes@; let ghost na0 = opt_view(new_aux);
-                match vx_it.next() {
-                    Some((slot, old_actual_val)) => {
-                        proof {
-                            assert(it0.todo().dom().contains(slot));
-                            assert(a0.dom().contains(slot) && a0[slot] == old_actual_val);
-                            assert(nib(nb0, slot as int) == shifted_nib(c0, b0, a0, it0.todo(), slot as int));
-                            assert(nib(b0, slot as int) == 15 <==> a0.dom().contains((slot as int) as u32));
-                        }
-                        debug_assert!(self.get_raw(slot) == AUX_TOKEN);   // pinned code has `!=` (inverted): that obligation fails
-
-                        let new_shifted = old_actual_val - new_cur_min;
-
-                        if new_shifted < AUX_TOKEN {
-                            self.put_raw(slot, new_shifted);
-                        } else {
-                            // Still an exception
-                            let aux = vx_get_or_new_aux(&mut new_aux, self.lg_config_k);
-                            aux.insert(slot, old_actual_val);
-                        }
-                        proof {
-                            if new_shifted >= 15 { assert(self.bytes@ == nb0); assert(opt_view(new_aux) == na0.insert(slot, old_actual_val)); }
-                            else { assert(opt_view(new_aux) == na0); }
-                            lemma_shift_step(lg, c0, b0, a0, it0.todo(), vx_it.todo(), nb0, self.bytes@, na0, opt_view(new_aux), slot);
-                        }
-                    }
-                    None => { break; }
-                }
-            }
-            self.aux_map = new_aux;
-            proof {
-                assert forall|j: int| 0 <= j < kk implies #[trigger] nib(self.bytes@, j) == final_nib(c0, b0, a0, j) by {
-                    assert(nib(self.bytes@, j) == shifted_nib(c0, b0, a0, vx_it.todo(), j));
-                    assert(!vx_it.todo().dom().contains(j as u32));
-                }
-                assert(self.auxv() == opt_view(self.aux_map));
-            }
-        } else {
-            proof {
-                assert(a0.dom() =~= ISet::<u32>::empty());
-                assert(self.bytes@ == b1);
-                assert forall|j: int| 0 <= j < kk implies #[trigger] nib(self.bytes@, j) == final_nib(c0, b0, a0, j) by {
-                    lemma_nib_le(b0, j);
-                    assert(nib(b0, j) == 15 <==> a0.dom().contains(j as u32));
-                    assert(nib(b1, j) == (if nib(b0, j) < 15 { (nib(b0, j) - 1) as u8 } else { nib(b0, j) }));
-                }
-            }
-        }
-
-        self.cur_min = new_cur_min;
-        self.num_at_cur_min = num_at_new;
-        proof {
-            let b2 = self.bytes@; let a2 = self.auxv();
-            lemma_shift_done(lg, c0, b0, a0, b2, a2);
-            lemma_cnt_one(lg, c0, b0, a0, b2, a2, kk);
-        }
-    }
-
-    fn update(&mut self, coupon: u32)
-      requires old(self).wf2()
-      ensures /*@C02.wf*/ final(self).wf2(), final(self).lg_config_k == old(self).lg_config_k,
-        /*@C02.regs*/ forall|i: int| 0 <= i < old(self).k() ==> #[trigger] final(self).reg(i) ==
-            (if i == slot_of(coupon, old(self).lg_config_k) && cval(coupon) as int > old(self).reg(i) { cval(coupon) as int } else { old(self).reg(i) }),
-        /*@C02.log*/ final(self).estimator.log() == (if cval(coupon) as int > old(self).reg(slot_of(coupon, old(self).lg_config_k)) {
-              old(self).estimator.log().push((old(self).reg(slot_of(coupon, old(self).lg_config_k)) as u8, cval(coupon))) } else { old(self).estimator.log() }),
-    {
-        proof { lemma_k(self.lg_config_k); lemma_mask(cslot(coupon), self.lg_config_k); }
-        let mask = (1 << self.lg_config_k) - 1;
-        let slot = get_slot(coupon) & mask;
-        let new_value = get_value(coupon);
-
-        // Quick rejection: if new value <= cur_min, no update needed
-        if new_value <= self.cur_min {
-            proof { assert(self.reg(slot as int) >= self.cur_min) by { self.lemma_reg_ge(slot as int); } }
-            return;
-        }
-
-        let raw_stored = self.get_raw(slot);
-        let lower_bound = raw_stored + self.cur_min;
-        proof { self.lemma_reg_ge(slot as int); }
-
-        if new_value <= lower_bound {
-            return;
-        }
-
-        // Get actual old value (might be in aux map)
-        let old_value = if raw_stored < AUX_TOKEN {
-            lower_bound
-        } else {
-            self.aux_map
-                .as_ref()
-                .expect("aux_map should be initialized since stored value is AUX_TOKEN")
-                .get(slot)
-                .expect("slot should be in aux_map since associated value is AUX_TOKEN")
-        };
-        proof { assert(old_value as int == self.reg(slot as int)); }
-
-        if new_value <= old_value {
-            return;
-        }
-
-        proof { assert(self.wf()); }
-        let ghost pre0 = *self;
-        // Update HIP and KxQ registers via estimator
-        self.estimator
-            .update(self.lg_config_k, old_value, new_value);
-
-        let shifted_new = new_value - self.cur_min;
-        let ghost pre = *self;
-        proof { assert(pre.wf()); }
-
-        // Four cases based on old/new exception status
-        match (raw_stored, shifted_new) {
-            // Case 1: Both old and new are exceptions
-            (AUX_TOKEN, shifted) if shifted >= AUX_TOKEN => {
-                self.aux_map
-                    .as_mut()
-                    .expect("aux_map should be initialized since stored value is AUX_TOKEN")
-                    .replace(slot, new_value);
-                proof {
-                    assert(self.auxv() == pre.auxv().insert(slot, new_value));
-                    assert(self.bytes@ == pre.bytes@);
-                }
-            }
-            // Case 2: Old is exception, new is not (impossible without cur_min change)
-            (AUX_TOKEN, _) => {
-                unreachable!("AUX_TOKEN present with non-exception new value");
-            }
-            // Case 3: Old not exception, new is exception
-            (_, shifted) if shifted >= AUX_TOKEN => {
-                self.put_raw(slot, AUX_TOKEN);
-                let aux = vx_get_or_new_aux(&mut self.aux_map, self.lg_config_k);
-                aux.insert(slot, new_value);
-                proof {
-                    assert(self.auxv() == pre.auxv().insert(slot, new_value));
-                    assert(forall|j: int| 0 <= j < pre.k() ==> #[trigger] nib(self.bytes@, j) == (if j == slot { 15u8 } else { nib(pre.bytes@, j) }));
-                }
-            }
-            // Case 4: Neither is exception
-            _ => {
-                self.put_raw(slot, shifted_new);
-                proof {
-                    assert(self.auxv() == pre.auxv());
-                    assert(forall|j: int| 0 <= j < pre.k() ==> #[trigger] nib(self.bytes@, j) == (if j == slot { shifted_new } else { nib(pre.bytes@, j) }));
-                }
-            }
-        }
-        proof {
-            assert(self.cur_min == pre.cur_min && self.lg_config_k == pre.lg_config_k && self.bytes@.len() == pre.bytes@.len());
-            assert forall|i: int| 0 <= i < pre.k() implies #[trigger] self.reg(i) == (if i == slot { new_value as int } else { pre.reg(i) }) by {
-                pre.lemma_reg_ge(i);
-                if i != slot {
-                    assert(nib(self.bytes@, i) == nib(pre.bytes@, i));
-                    if nib(pre.bytes@, i) == 15 { assert(pre.auxv().dom().contains(i as u32)); assert(self.auxv()[i as u32] == pre.auxv()[i as u32]); }
-                }
-            }
-            assert forall|i: int| 0 <= i < self.k() implies (nib(self.bytes@, i) == 15 <==> #[trigger] self.auxv().dom().contains(i as u32)) by {
-                pre.lemma_reg_ge(i);
-                if i != slot { assert(nib(self.bytes@, i) == nib(pre.bytes@, i)); assert(pre.auxv().dom().contains(i as u32) == self.auxv().dom().contains(i as u32)); }
-            }
-            assert forall|s: u32| #[trigger] self.auxv().dom().contains(s) implies s < self.k() && self.cur_min + 15 <= self.auxv()[s] <= 63 by {
-                if s != slot { assert(pre.auxv().dom().contains(s)); assert(self.auxv()[s] == pre.auxv()[s]); }
-                else {
-                    if shifted_new < 15 {
-                        // case 4: slot was not an exception and is not one now
-                        assert(raw_stored < 15);
-                        assert(nib(pre.bytes@, slot as int) == 15 <==> pre.auxv().dom().contains((slot as int) as u32));
-                        assert(false);
-                    } else {
-                        assert(self.auxv()[slot] == new_value);
-                    }
-                }
-            }
-            assert(self.aux_map matches Some(m) ==> m.awf() && m.lgk() == self.lg_config_k);
-            assert forall|i: int| 0 <= i < self.k() implies #[trigger] preg(self.cur_min, self.bytes@, self.auxv(), i) <= 63 by {
-                assert(self.reg(i) == (if i == slot { new_value as int } else { pre.reg(i) }));
-                assert(pre.reg(i) <= 63);
-            }
-            assert(self.bytes@.len() * 2 == self.k());
-            assert(self.cur_min <= 63 && 4 <= self.lg_config_k <= 21);
-            assert(forall|i: int| 0 <= i < self.k() ==> (nib(self.bytes@, i) == 15 <==> #[trigger] self.auxv().dom().contains(i as u32)));
-            assert(pwf(self.lg_config_k, self.cur_min, self.bytes@, self.auxv()));
-            assert(self.wf());
-            self.lemma_cnt_update(pre, slot as int, self.k());
-        }
-
-        // Handle cur_min adjustment
-        if old_value == self.cur_min {
-            self.num_at_cur_min -= 1;
-            while self.num_at_cur_min == 0
-              invariant self.wf(), self.lg_config_k == old(self).lg_config_k, self.estimator == pre.estimator,
-                self.num_at_cur_min == self.cnt_at(self.cur_min as int, self.k()),
-                forall|i: int| 0 <= i < old(self).k() ==> #[trigger] self.reg(i) == (if i == slot { new_value as int } else { pre.reg(i) }),
-              decreases 63 - self.cur_min
-            {
-                self.shift_to_bigger_cur_min();
-            }
-        }
-    }
 
     proof fn lemma_reg_ge(&self, i: int)
       requires self.wf(), 0 <= i < self.k()
